@@ -200,20 +200,14 @@ theorem foldl_fields {β} (items : List (Str × Str)) (f : β → PrjElem → β
   | nil => rfl
   | cons x r ih => obtain ⟨k, v⟩ := x; simp [h, ih]
 
-/-- the project rule on the rendered text, after the blank lines before it and before whatever follows -/
-theorem projectRule_okP (c c0 : Cur) (n : Str) (items : List (Str × Str)) (post : Str) (Q : Cur → Prop)
-    (hb : cBefore c = .ok [] c0) (hc : c0.rest = projectText n items ++ post) (hp : c0.pastEnd = false)
+/-- the project rule once its keyword - in whatever letter case - has been read -/
+theorem projectRule_from (c c0 c1 : Cur) (n : Str) (items : List (Str × Str)) (post : Str) (Q : Cur → Prop)
+    (hb : cBefore c = .ok [] c0) (hkw : clit "project" c0 = .ok () c1)
+    (hr1 : c1.rest = ' ' :: '"' :: (n ++ '"' :: ' ' :: '{' :: '\n' :: (fieldLines items ++ '}' :: post))) (hp1 : c1.pastEnd = false)
     (hn : NameOK n) (hk : ∀ kv ∈ items, PKeyOK kv.1) (hv : ∀ kv ∈ items, Plain kv.2 ∧ hasTriple kv.2 = false)
     (hd : items.Pairwise (fun a b => a.1 ≠ b.1))
     (hend : ∀ c7 : Cur, c7.rest = post → c7.pastEnd = false → ∃ c9, (alt lineEnd stringEnd) c7 = .ok () c9 ∧ Q c9) :
     ∃ c9, projectRule c = .ok (projectBpOf n items) c9 ∧ Q c9 := by
-  have hc' : c0.rest = ['P', 'r', 'o', 'j', 'e', 'c', 't'] ++ ' ' :: '"' :: (n ++ '"' :: ' ' :: '{' :: '\n' ::
-      (fieldLines items ++ '}' :: post)) := by rw [hc]; simp [projectText]
-  have hN : (skipWs c0).rest = ['P', 'r', 'o', 'j', 'e', 'c', 't'] ++ ' ' :: '"' :: (n ++ '"' :: ' ' :: '{' :: '\n' ::
-      (fieldLines items ++ '}' :: post)) := by
-    rw [skipWs_rest_head c0 'P' _ (by rw [hc']; rfl) (by decide)]; rfl
-  obtain ⟨c1, hkw, hr1, hp1⟩ := clit_ok "project" c0 ['P', 'r', 'o', 'j', 'e', 'c', 't'] _ hN (by decide)
-    (by simp [startsWithCaseless] <;> decide) hp
   have hN1' : Next c1 '"' (n ++ '"' :: (' ' :: '{' :: '\n' :: (fieldLines items ++ '}' :: post))) :=
     skipWs_rest_spaces c1 1 '"' _ (by rw [hr1]; rfl) (by decide)
   obtain ⟨q1, q2⟩ := quiet_of_next c1 '"' _ hN1' (by decide) (by decide)
@@ -244,6 +238,22 @@ theorem projectRule_okP (c c0 : Cur) (n : Str) (items : List (Str × Str)) (post
   simp only [bind, pbind, hb, hkw, hs1, cut, hnm, hs2, hbr, hs3, hmany, hs5, hcl, hend9, pure, ppure, projectBpOf, joinBefore]
   rw [filterMap_fields items _ id (fun _ _ => rfl), foldl_fields _ _ (fun _ _ _ => rfl)]
   simp [dictOf_distinct items hd]
+
+/-- the project rule on the rendered text, after the blank lines before it and before whatever follows -/
+theorem projectRule_okP (c c0 : Cur) (n : Str) (items : List (Str × Str)) (post : Str) (Q : Cur → Prop)
+    (hb : cBefore c = .ok [] c0) (hc : c0.rest = projectText n items ++ post) (hp : c0.pastEnd = false)
+    (hn : NameOK n) (hk : ∀ kv ∈ items, PKeyOK kv.1) (hv : ∀ kv ∈ items, Plain kv.2 ∧ hasTriple kv.2 = false)
+    (hd : items.Pairwise (fun a b => a.1 ≠ b.1))
+    (hend : ∀ c7 : Cur, c7.rest = post → c7.pastEnd = false → ∃ c9, (alt lineEnd stringEnd) c7 = .ok () c9 ∧ Q c9) :
+    ∃ c9, projectRule c = .ok (projectBpOf n items) c9 ∧ Q c9 := by
+  have hc' : c0.rest = ['P', 'r', 'o', 'j', 'e', 'c', 't'] ++ ' ' :: '"' :: (n ++ '"' :: ' ' :: '{' :: '\n' ::
+      (fieldLines items ++ '}' :: post)) := by rw [hc]; simp [projectText]
+  have hN : (skipWs c0).rest = ['P', 'r', 'o', 'j', 'e', 'c', 't'] ++ ' ' :: '"' :: (n ++ '"' :: ' ' :: '{' :: '\n' ::
+      (fieldLines items ++ '}' :: post)) := by
+    rw [skipWs_rest_head c0 'P' _ (by rw [hc']; rfl) (by decide)]; rfl
+  obtain ⟨c1, hkw, hr1, hp1⟩ := clit_ok "project" c0 ['P', 'r', 'o', 'j', 'e', 'c', 't'] _ hN (by decide)
+    (by simp [startsWithCaseless] <;> decide) hp
+  exact projectRule_from c c0 c1 n items post Q hb hkw hr1 hp1 hn hk hv hd hend
 
 /-! ### the element form -/
 
